@@ -76,7 +76,7 @@ var probes = []struct{ entry, text string }{
 	{"ParseQuery", "SELECT a.* EXCEPT (b) FROM t"}, {"ParseQuery", "FROM t |> SELECT a |> WHERE a"}, {"ParseQuery", "SELECT 1 FROM ((SELECT 1)"},
 	{"ParseType", "`INT64`"}, {"ParseType", "ARRAY<STRUCT<a INT64, b ARRAY<STRING>>>"}, {"ParseType", "ARRAY<"}, {"ParseType", "STRUCT<a ARRAY<INT64>>"}, {"ParseType", "a.b.c"},
 	{"ParseDDL", "CREATE CHANGE STREAM s FOR ALL"}, {"ParseDDL", "CREATE CHANGE STREAM s FOR t(a, b), u"}, {"ParseDDL", "ALTER CHANGE STREAM s SET x"}, {"ParseDDL", "ALTER SEQUENCE s"},
-	{"ParseDDL", "CREATE SEQUENCE s BIT_REVERSED_POSITIVE SKIP RANGE 1, 2 START COUNTER WITH 3"}, {"ParseDDL", "CREATE TABLE t (a INT64 DEFAULT (1)) PRIMARY KEY (a)"},
+	{"ParseDDL", "CREATE SEQUENCE s BIT_REVERSED_POSITIVE SKIP RANGE 1, 2 START COUNTER WITH 3"}, {"ParseDDL", "CREATE SEQUENCE s BIT_REVERSED_POSITIVE SKIP RANGE 1, 2 START COUNTER WITH 3 OPTIONS (a = 1)"}, {"ParseDDL", "CREATE TABLE t (a INT64 DEFAULT (1)) PRIMARY KEY (a)"},
 	{"ParseDDL", "CREATE TABLE t (a INT64, CONSTRAINT c CHECK (a > 0), b STRING(MAX)) PRIMARY KEY (a), ROW DELETION POLICY (OLDER_THAN(b, INTERVAL 1 DAY))"},
 	{"ParseDDL", "CREATE PROPERTY GRAPH g NODE TABLES (t PROPERTIES (a + 1 AS b, c))"}, {"ParseDML", "INSERT INTO t (a) VALUES (DEFAULT)"}, {"ParseDML", "DELETE t WHERE true"},
 	{"ParseDML", "DELETE FROM t WHERE true"}, {"ParseDML", "UPDATE t SET a = 1, b = DEFAULT WHERE true THEN RETURN WITH ACTION AS x *"},
